@@ -28,6 +28,7 @@ import (
 	"k8s.io/apimachinery/pkg/runtime/serializer"
 	"k8s.io/apimachinery/pkg/util/httpstream"
 	utilnet "k8s.io/apimachinery/pkg/util/net"
+	"k8s.io/apimachinery/pkg/util/proxy"
 	"k8s.io/apiserver/pkg/endpoints/filters"
 	genericapirequest "k8s.io/apiserver/pkg/endpoints/request"
 	"k8s.io/client-go/kubernetes/scheme"
@@ -160,8 +161,41 @@ func (d *dispatcher) ServeHTTP(w http.ResponseWriter, req *http.Request) {
 		// once the connection is hijacked the proxy no longer looks at the request context, so the
 		// cancellation above would not reach an exec / attach / port-forward session
 		w = closeOnDoneWriter{ResponseWriter: w, done: newReq.Context().Done()}
+		// nor does it while it waits for the upstream's answer to the upgrade request
+		if endpoint.PorxyUpgradeTransport != nil {
+			proxyHandler.UpgradeTransport = closeOnDoneUpgradeTransport{UpgradeRequestRoundTripper: endpoint.PorxyUpgradeTransport, done: newReq.Context().Done()}
+		}
 	}
 	proxyHandler.ServeHTTP(w, newReq)
+}
+
+// closeOnDoneUpgradeTransport makes the connection that is dialled to the upstream for an upgrade
+// request end when done is closed (endpoint stopped, client gone, or the handler returned).
+type closeOnDoneUpgradeTransport struct {
+	proxy.UpgradeRequestRoundTripper
+	done <-chan struct{}
+}
+
+// WrappedRoundTripper is where the proxy takes the dialer and the TLS configuration from.
+func (t closeOnDoneUpgradeTransport) WrappedRoundTripper() http.RoundTripper {
+	dial, _ := utilnet.DialerFor(t.UpgradeRequestRoundTripper)
+	tlsConfig, _ := utilnet.TLSClientConfig(t.UpgradeRequestRoundTripper)
+	if dial == nil {
+		dial = (&net.Dialer{}).DialContext
+	}
+	return &http.Transport{
+		TLSClientConfig: tlsConfig,
+		DialContext: func(ctx context.Context, network, addr string) (net.Conn, error) {
+			conn, err := dial(ctx, network, addr)
+			if err == nil {
+				go func() {
+					<-t.done
+					conn.Close()
+				}()
+			}
+			return conn, err
+		},
+	}
 }
 
 // closeOnDoneWriter closes a hijacked connection when done is closed (endpoint stopped,
